@@ -420,6 +420,10 @@ add("C19", "fixed", "variable-path-not-reported:in-partial", "a partial first re
 add("C10", "fixed", "ws:plain:if", "with shorthand template comments enabled, an unclosed '{#-' (literal text) still right-trimmed the text before it: 'a  {#- b' rendered 'a{#- b'",
     [{"segs": ["a  {#- b"], "tc": True}, {"segs": [" p ", {"k": "out", "f": [0, 0], "lit": "L"}, "a \n{#-"], "tc": True}], "a0a0418")
 
+add("C17", "fixed", "stale-clock:filter:date", "{{ 'now' | date: fmt }} (and 'today') went through the date filter's memo: every later render printed the time of the first render that used "
+    "that format, until ten other date calls evicted the entry",
+    [], "b13bdc7")
+
 if __name__ == "__main__":
     # further entries are appended by tools/mkfindings.py from triaged replay files and kept in findings_extra.json
     extra_path = os.path.join(VERIF, "tools", "findings_extra.json")
